@@ -15,6 +15,8 @@ class ConfigEvent(Event):
     """
 
     def __init__(self, config):  # type: (ApplicationConfig) -> None
+        super(ConfigEvent, self).__init__()
+
         self._config = config
 
     @property
